@@ -1,10 +1,53 @@
 from .. import attr_oracles as O
 from .attr_common import run_attr_property, replay_attr
 
-DEPS = {"C20": ["AttrThms.vo"], "C09": ["AttrThms.vo"], "C10": ["AttrThms.vo", "AttrThms2.vo"], "C11": ["AttrThms.vo", "gen/KernelsGen.vo"], "C06": ["AttrThms.vo"]}
+DEPS = {"C20": ["AttrThms.vo", "Interp.vo"], "C09": ["AttrThms.vo"], "C10": ["AttrThms.vo", "AttrThms2.vo"], "C11": ["AttrThms.vo", "gen/KernelsGen.vo"], "C06": ["AttrThms.vo"]}
+
+
+def interp_correspondence(ck):
+    """get_measurement (np.interp, real and imaginary parts separately) vs Interp.interp at binary64."""
+    import numpy as np
+    from .. import attrs, common
+    from ..common import fhex
+    terms, exp = [], []
+    for _ in range(6 if ck.tier == "quick" else 60):
+        r, an, info = attrs.make_result(ck.rng, which="full")
+        f = np.asarray(r.f, float)
+        if len(f) < 3 or not np.all(np.diff(f) > 0):
+            continue
+        for nm in (["Gxx", "L"] + (["Gxy", "Hxy"] if r.iscsd else ["asd"])):
+            tab = np.asarray(getattr(r, nm))
+            j = ck.rng.randrange(len(f) - 1)
+            qs = [float(f[j]), float(f[j] + 0.37 * (f[j + 1] - f[j])), float(f[0] * 0.5), float(f[-1] * 2), float(f[-1]), float(np.nextafter(f[j + 1], 0))]
+            for q in qs:
+                got = r.get_measurement(q, nm)
+                xs = "[" + "; ".join(fhex(v) for v in f) + "]"
+                if np.iscomplexobj(tab):
+                    fp = "[" + "; ".join("(%s, %s)" % (fhex(v.real), fhex(v.imag)) for v in tab) + "]"
+                    terms.append("Eval vm_compute in (interp_cpx FloatA %s %s %s)." % (fhex(q), xs, fp)); exp.append((nm, q, complex(got)))
+                else:
+                    fp = "[" + "; ".join(fhex(float(v)) for v in tab) + "]"
+                    terms.append("Eval vm_compute in (interp FloatA %s (combine %s %s))." % (fhex(q), xs, fp)); exp.append((nm, q, complex(float(got), 0.0)))
+    body = "From Coq Require Import ZArith List PrimFloat.\nFrom SK Require Import Arith Interp.\nImport ListNotations.\nOpen Scope float_scope.\n" + "\n".join(terms) + "\n"
+    res = common.run_case_files({"interp_%d" % __import__("os").getpid(): body})
+    rc, out = list(res.values())[0]
+    evs = common.parse_evals(out)
+    bad = []
+    if rc != 0 or len(evs) != len(exp):
+        bad.append("coq evaluation failed: " + out[-300:])
+    else:
+        for ev, (nm, q, val) in zip(evs, exp):
+            t = [float(x) for x in common.tokens(ev)]
+            m = complex(t[0], t[1]) if len(t) >= 2 else complex(t[0], 0.0)
+            if not abs(m - val) <= 1e-12 * max(abs(m), abs(val)) + 1e-300:
+                bad.append("get_measurement(%r, %r): implementation %r, model %r" % (q, nm, val, m))
+    ck.obligation("correspondence:get_measurement == Interp.interp at binary64 (grid points, interior, both clamps; real and complex)", not bad, "; ".join(bad[:3]))
+    ck.cov["interp_cases"] = len(exp)
 
 
 def extra(ck):
+    if "C20" == "C20":
+        interp_correspondence(ck)
     if "C20" == "C06":
         bad, worst = O.sinusoid_calibration(ck.rng, 8 if ck.tier == "quick" else 80)
         for tag, what, inp in bad:
